@@ -169,6 +169,13 @@ def install(I: Interp):
             {c: Arr(x.num, x.sel + (f"{_nm}({I.describe(a[0]) if a else ''})",), x.kind, x.index) for c, x in v.cols.items()},
             v.sel + (f"{_nm}({I.describe(a[0]) if a else ''})",), v.label))(_nm)
     M[("Frame", "reset_index")] = lambda I, v, a, k, n: Frame(v.cols, v.sel, v.label)
+
+    def frame_assign(I, v, a, k, n):
+        f2 = Frame(v.cols, v.sel, v.label if v.label.endswith("_copy") else v.label + "_copy")
+        for key, val in k.items():
+            frame_setitem(I, f2, [key, val], {}, n)
+        return f2
+    M[("Frame", "assign")] = frame_assign
     for _nm in ("all", "any"):
         M[("Mask", _nm)] = (lambda _nm: lambda I, v, a, k, n: UnknownBool(f"{_nm}({v.desc})"))(_nm)
 
